@@ -412,6 +412,37 @@ def r4_5_siblings(ctx, prog, rule="R4.5"):
         enf = [c for c in b.calls() if re.search(r"strings::opaque_string_enforce$", c.callee_path)]
         prep = [c for c in b.calls() if re.search(r"strings::opaque_string_prepapre$", c.callee_path)]
         ctx.ob(rule, "key:%s" % fn, len(enf) >= 1 and not prep, "HMACKey::%s enforces the OpaqueString profile (%d site, %d prepare)" % (fn, len(enf), len(prep)), b.where())
+        # dataflow of the key material: on every Ok path the key bytes are computed from the *results* of
+        # opaque_string_enforce - the raw password (and realm) reach the key only through it (checking them and then hashing
+        # the raw string derives a different key for any input that is not a fixed point of the profile)
+        kpaths, kinfo = C.explore_fn(prog, b.path, "x", [])
+        must = {"new_short_term": ("password",), "new_long_term": ("realm", "password")}[fn]
+        present = {"new_short_term": ("password",), "new_long_term": ("username", "realm", "password")}[fn]
+        n_ok = 0
+        for pa in kpaths:
+            r = C.expr_of(pa, pa.ret)
+            if not (isinstance(r, tuple) and r and r[0] == "Result::Ok"):
+                continue
+            n_ok += 1
+            raw, seen_leaf = [], set()
+
+            def walk(x, under):
+                if isinstance(x, tuple):
+                    u = under or (len(x) >= 1 and isinstance(x[0], str) and x[0].endswith("opaque_string_enforce"))
+                    for y in x:
+                        walk(y, u)
+                elif isinstance(x, str):
+                    for nm in present:
+                        if re.match(r"^top:%s(\b|$)" % nm, x):
+                            seen_leaf.add(nm)
+                            if nm in must and not under:
+                                raw.append(nm)
+            walk(r, False)
+            ok = not raw and set(present) <= seen_leaf
+            why = "key material of HMACKey::%s: %s reach it %s; inputs used: %s" % (
+                fn, "/".join(must), "only through opaque_string_enforce" if not raw else "RAW (%s not normalised)" % ", ".join(sorted(set(raw))), sorted(seen_leaf))
+            ctx.ob(rule, "key-dataflow:%s" % fn, ok, why, b.where(), replay=None if ok else pa.describe())
+        ctx.floor(rule, "Ok paths of HMACKey::%s" % fn, n_ok, 1)
     b = prog.body("stun_agent::integrity::validate_message_integrity")
     paths, info = _paths(ctx, prog, b.path, "x")
     seen = set()
